@@ -29,7 +29,15 @@ def check(rep, tier, seed):
     cases = []
     for i in range(n_hist):
         body = gen_lines(seed, i, n_ops)
-        g = [core.Case("backend", [hist.cfg_line(e)] + body, {"engine": e}) for e in ENGINES]
+        extra = {}
+        if i % 3 == 0:
+            # the tikv mock cluster split into several regions at internal keys of the key pool (other engines
+            # report one partition): range results must still be the same
+            import struct
+            r = rng_for(seed, "c12reg/%d" % i)
+            ks = r.sample(KEY_POOL, 3)
+            extra["regions"] = ",".join(hx(b"\x57\xfb\x80\x8b" + k + b"$" + struct.pack(">Q", r.choice([0, 0, hist.INIT + 3]))) for k in sorted(ks))
+        g = [core.Case("backend", [hist.cfg_line(e, **extra)] + body, {"engine": e}) for e in ENGINES]
         groups.append(g)
         cases += g
     core.run_cases(cases)
